@@ -101,6 +101,8 @@ impl SegmentLogWriter {
         match confirmation {
             Confirmation::Wait => {
                 self.write_batch(batch).await?;
+                #[cfg(iggy_verif)]
+                iggy::verif::point("log_writer.before_size_bump").await;
                 self.log_size_bytes
                     .fetch_add(batch_size.as_bytes_u64(), Ordering::AcqRel);
                 trace!(
